@@ -28,7 +28,8 @@ RULE = (
     "no_copy=False results share no mutable container with the input (types without Any), the input is never modified. "
     "serialization: every model-built value x {no_copy} x {check_type} x {function, precomputed method} x all 32 "
     "PassThroughOptions flag vectors (+ a `types` set / predicate): equal to the reference output once passed-through "
-    "leaves are completed by json.dumps(default=serialization_default()). distinct_nontrivial counts distinct "
+    "leaves are completed by json.dumps(default=serialization_default()). Discriminated unions (C13's world) under "
+    "the deserialization option vectors. distinct_nontrivial counts distinct "
     "(ctor-pair shape, option vector, verdict / value index) tuples."
 )
 
@@ -328,7 +329,59 @@ def select(tier, label):
     return True
 
 
+def run_discriminated(st):
+    """discriminated unions (C13's world) under the optimisation options: every (no_copy, override_dataclass_constructors,
+    route) vector gives what the default vector gives, for every mapped key x body"""
+    from ..realize import PRELUDE, exec_source
+    from .c13 import DISC_SRC
+
+    mod = exec_source(PRELUDE + DISC_SRC)
+    bodies = [{}, {"x": 1}, {"x": "bad"}, {"x": 1, "zz": 0}, {"n": 2}, {"n": 2, "x": 1}, {"v": 3}, {"v": "bad"}]
+    try:
+        for name, (utp, key, mapping, declares) in mod.EXPECT.items():
+            methods = {}
+            for nc, ov, route in itertools.product((True, False), (False, True), ("method", "function")):
+                settings.deserialization.override_dataclass_constructors = ov
+                try:
+                    if route == "method":
+                        methods[(nc, ov, route)] = apischema.deserialization_method(utp, no_copy=nc)
+                    else:
+                        methods[(nc, ov, route)] = (lambda nc=nc, ov=ov: (lambda d: _call_function(utp, d, nc, ov)))()
+                except Exception as e:
+                    st.violation({"label": "disc:" + name, "signature": {"kind": "disc_compile", "union": name, "options": [nc, ov]}, "what": f"{name}: {e!r}"[:300]})
+                finally:
+                    settings.deserialization.override_dataclass_constructors = False
+            for k in list(mapping) + ["nope", "<absent>"]:
+                for body in bodies:
+                    d0 = dict(body)
+                    if k != "<absent>":
+                        d0[key] = k
+                    ref = outcome(*dc.run_impl(methods[(True, False, "method")], dict(d0)))
+                    for opt, m in methods.items():
+                        dd = dict(d0)
+                        oc = outcome(*dc.run_impl(m, dd))
+                        st.case("disc", name, opt, k, tuple(sorted(body)))
+                        if oc != ref:
+                            st.violation({"label": "disc:" + name, "datum": repr(d0), "options": list(opt), "signature": {"kind": "deser_option_changes_result", "option": "+".join(n for n, on in (("override_dataclass_constructors", opt[1]), ("no_copy=False", not opt[0]), ("function", opt[2] == "function")) if on), "shape": "disc:" + name, "verdicts": [ref[0], oc[0]]}, "what": f"{name} <- {d0!r} with no_copy={opt[0]} override_ctor={opt[1]} via {opt[2]}: {str(oc)[:200]} but default gives {str(ref)[:200]}"})
+                        if dd != d0:
+                            st.violation({"label": "disc:" + name, "datum": repr(d0), "signature": {"kind": "input_modified", "no_copy": opt[0], "shape": "disc:" + name}, "what": f"input modified by deserialization: {dd!r}"})
+    finally:
+        dc.world.restore_settings()
+        import sys
+
+        sys.modules.pop(mod.__name__, None)
+
+
 def work(tier, widx, nworkers, st, extra):
+    import os
+
+    if widx == 0 and os.environ.get("VERIF_ONLY") in (None, "", "disc"):
+        try:
+            run_discriminated(st)
+        except Exception:
+            import traceback
+
+            st.violation({"signature": {"kind": "harness_error"}, "harness_error": True, "what": "discriminated world", "traceback": traceback.format_exc()[-2000:]})
     try:
         for i, label, spec in dc.my_types("quick", widx, nworkers):
             if select(tier, label):
@@ -356,6 +409,8 @@ def main(tier: str, t0: float) -> int:
 def replay(path: str) -> int:
     v = json.load(open(path))
     st = infra.Stats()
+    if v["label"].startswith("disc:"):
+        run_discriminated(st)
     for lab, spec in gen_types("quick"):
         if lab == v["label"]:
             try:
